@@ -57,12 +57,40 @@ pub const NEST: &[(&str, &str, &str, &str, &str)] = &[
 pub const RUNGS_QUICK: &[usize] = &[64, 256, 1000, 4000, 10000];
 pub const RUNGS_THOROUGH: &[usize] = &[64, 256, 1000, 4000, 10000, 30000, 100000];
 
+/// Trivia interleaved into the code nesting families every 100 levels (variant v of family f is family
+/// index f + v * NEST.len()): the comment / doc-comment paths run inside the recursion, too.
+pub const TRIVIA: &[(&str, &str)] = &[("", ""), ("+line-comment", " --c\n"), ("+doc-comment", "\n---@type A<B>\n")];
+/// number of leading NEST families that are code (not doc-type) nesting
+pub const CODE_NEST: usize = 19;
+
+pub fn nest_families() -> usize {
+    NEST.len() + (TRIVIA.len() - 1) * CODE_NEST
+}
+
+pub fn nest_name(fam: usize) -> String {
+    if fam < NEST.len() {
+        NEST[fam].0.to_string()
+    } else {
+        let k = fam - NEST.len();
+        format!("{}{}", NEST[k % CODE_NEST].0, TRIVIA[1 + k / CODE_NEST].0)
+    }
+}
+
 pub fn nest_text(fam: usize, depth: usize) -> String {
-    let (_, prefix, open, mid, close) = NEST[fam];
+    let (base, trivia) = if fam < NEST.len() {
+        (fam, "")
+    } else {
+        let k = fam - NEST.len();
+        (k % CODE_NEST, TRIVIA[(1 + k / CODE_NEST).min(TRIVIA.len() - 1)].1)
+    };
+    let (_, prefix, open, mid, close) = NEST[base];
     let mut s = String::with_capacity(prefix.len() + depth * (open.len() + close.len()) + mid.len() + 1);
     s.push_str(prefix);
-    for _ in 0..depth {
+    for d in 0..depth {
         s.push_str(open);
+        if !trivia.is_empty() && d % 100 == 99 {
+            s.push_str(trivia);
+        }
     }
     s.push_str(mid);
     for _ in 0..depth {
@@ -340,31 +368,33 @@ pub fn run(ctx: &mut Ctx) {
     let rungs = if thorough { RUNGS_THOROUGH } else { RUNGS_QUICK };
     let stacks: &[usize] = if thorough { &[STACK, 8 << 20] } else { &[STACK] };
     let work = ctx.work.clone();
-    for fam in 0..NEST.len() {
+    for fam in 0..nest_families() {
         if fam % nshards != shard {
             continue;
         }
+        let fam_name = nest_name(fam);
         for &stack in stacks {
             let tag = if stack == STACK { "abort" } else { "abort8m" };
             let mut smallest_failing: Option<usize> = None;
             for &depth in rungs {
-                let len = NEST[fam].1.len() + depth * (NEST[fam].2.len() + NEST[fam].4.len());
+                let b = if fam < NEST.len() { fam } else { (fam - NEST.len()) % CODE_NEST };
+                let len = NEST[b].1.len() + depth * (NEST[b].2.len() + NEST[b].4.len());
                 if len > (2 << 20) {
                     continue;
                 }
-                let case = json!({"kind": "nest", "family": fam, "family_name": NEST[fam].0, "depth": depth, "level": 7, "doc": true, "stack": stack});
+                let case = json!({"kind": "nest", "family": fam, "family_name": fam_name, "depth": depth, "level": 7, "doc": true, "stack": stack});
                 ctx.clause(if stack == STACK { "b:nesting-rung" } else { "b:nesting-rung-8MiB" });
                 match crate::util::isolated("C02", &case, &work, 300) {
                     crate::util::ChildOutcome::Held => {
                         ctx.clause("a:no-panic");
                         ctx.held(fnv(format!("nest:{fam}:{depth}:{stack}").as_bytes()), depth >= 64);
                         if depth == 1000 && stack == STACK && ctx.want_sample() {
-                            ctx.sample(json!({"kind": "nest", "family": NEST[fam].0, "depth": depth, "text": clip(&nest_text(fam, depth), 80)}));
+                            ctx.sample(json!({"kind": "nest", "family": fam_name, "depth": depth, "text": clip(&nest_text(fam, depth), 80)}));
                         }
                     }
                     crate::util::ChildOutcome::Violated(sigs) => {
                         for s in sigs {
-                            ctx.violated(&s, &format!("family {} depth {depth}", NEST[fam].0), case.clone());
+                            ctx.violated(&s, &format!("family {fam_name} depth {depth}"), case.clone());
                         }
                     }
                     crate::util::ChildOutcome::Died(sig) => {
@@ -373,7 +403,7 @@ pub fn run(ctx: &mut Ctx) {
                             if smallest_failing.is_none() {
                                 smallest_failing = Some(depth);
                                 ctx.violated(
-                                    &format!("C02:{tag}:family={}:depth={}", NEST[fam].0, depth),
+                                    &format!("C02:{tag}:family={fam_name}:depth={depth}"),
                                     &format!("parser process killed by signal {sig} (stack overflow) on a {} KiB stack: {}", stack >> 10, clip(&nest_text(fam, depth), 60)),
                                     case.clone(),
                                 );
